@@ -123,6 +123,7 @@ def vacuity(progs):
         "a filter that selects an inherited method": False,
         "a container element use": False,
         "a diamond include": False,
+        "a function whose name extends the name of another one": False,
         "B => A counterexample or none (flag present)": False,
         "a run that clears an `extends`": False,
         "a run that drops an include": False,
@@ -147,6 +148,8 @@ def vacuity(progs):
         for d in G["defs"]:
             if d["k"] == "service" and d["ext"] and G["defs"][d["ext"] - 1]["f"] != d["f"]:
                 need["a base service in an included file"] = True
+            if d["k"] == "service" and any(fn.get("pre") for fn in d["fns"]):
+                need["a function whose name extends the name of another one"] = True
         nsl = [i + 1 for i, d in enumerate(G["defs"]) if d["k"] in ("struct", "union", "exception")]
         ninc = sum(len(x) for x in G["inc"])
         nfn = sum(len(d["fns"]) for d in G["defs"])
@@ -670,11 +673,15 @@ PROBES = [
      {"a.thrift": 'namespace go a\ninclude "b.thrift"\nservice S extends b.B { void m1(1: i32 x) }\n',
       "b.thrift": 'namespace go b\nstruct X {1: i32 a}\nservice B { void p1(1: X x) }\n'}, ["S.m1"],
      lambda o: not o["t1"]["err"] and all(not f["includes"] for f in o["t1"]["files"] if f["path"] == "a.thrift")),
+    ("traceprefix",
+     {"a.thrift": 'service B { void p(1: i32 x) }\nservice S extends B { void get(1: i32 x)\n void getAll(1: i32 x) }\n'},
+     ["S.get"],
+     lambda o: not o["t1"]["err"] and all(s["fns"] == ["get"] for f in o["t1"]["files"] for s in f["svcs"] if s["name"] == "S")),
 ]
 
 
 def probe_fixes(ctx, harness):
-    """Layer B transcribes the pinned algorithm including two behaviours a repair would change; two probe inputs
+    """Layer B transcribes the pinned algorithm including three behaviours a repair would change; three probe inputs
     tell which variant the tree under test has, so that B stays a transcription of THIS tree (B is never the oracle)."""
     lines = [{"id": i, "main": "a.thrift", "files": files, "yaml": None,
               "args": {"methods": m, "preserve": None, "disable_comment": None, "pstructs": []}}
@@ -731,6 +738,7 @@ def run(ctx, args):
         assumptions=["`-m` patterns are the five forms of Trim.tla Match; method names are chosen so that regular-expression "
                      "search and exact match select the same methods",
                      "an unqualified method name may denote the method of any service of the root file",
+                     "a function whose name merely starts with the text of a pattern may or may not count as matching",
                      "services of included files that no root service extends may stay or go (statement silent)",
                      "an include that contributes only enums behind an otherwise empty file may go (statement ambiguous)",
                      "functions have at most one throws entry (the dumper's separator defect belongs to C17)"],
